@@ -302,15 +302,13 @@ def run(chk):
         ent = [c for c in cb.calls(normal_only=True) if c.callee.get("name") == "entry"]
         if len(ent) != 1 or ("callsite", ent[0].bb) not in ra:
             return False, "the first operand of mem::swap is %s, not this context's map entry" % o_str(a), [], sw[0].loc
-        if not (i[0] == "capture" and i[1] == "incoming"):
-            return False, "the second operand of mem::swap is %s, not the incoming frame" % o_str(i), [], sw[0].loc
+        # by provenance (what was captured), not by the captured variables' names: the second operand is the function's frame
+        # parameter (#2), the key its id parameter (#1)
+        if not (i[0] == "capture" and mir.o_is_param(P.capture_origin(cb, i), idx=2)):
+            return False, "the second operand of mem::swap is %s, not the incoming frame (the function's second parameter)" % o_str(i), [], sw[0].loc
         ko = cb.origin(ent[0].args[1])
-        if not (ko[0] == "capture" and ko[1] == "id"):
+        if not (ko[0] == "capture" and mir.o_is_param(P.capture_origin(cb, ko), idx=1)):
             return False, "the slot is looked up with key %s, not the id parameter" % o_str(ko), [], ent[0].loc
-        # captured id is the function's id parameter, incoming its second parameter
-        caps = dict(zip(clo[1]["fields"], clo[2]))
-        if not mir.o_is_param(caps.get("id", ("unknown",)), idx=1) or not mir.o_is_param(caps.get("incoming", ("unknown",)), idx=2):
-            return False, "closure captures are not (id, incoming)", [], w.loc
         return True, "", [ent[0].loc, sw[0].loc]
     chk.ob("C03.R6:swap", "swap exchanges the incoming frame with the map entry for the id, in the thread-local", swap_fn)
 
@@ -323,8 +321,7 @@ def run(chk):
         if len(ent) != 1:
             return False, "expected one entry() lookup", [], cb.span
         ko = cb.origin(ent[0].args[1])
-        caps = dict(zip(clo[1]["fields"], clo[2]))
-        if not (ko[0] == "capture" and ko[1] == "id" and mir.o_is_param(caps.get("id", ("unknown",)), idx=1)):
+        if not (ko[0] == "capture" and mir.o_is_param(P.capture_origin(cb, ko), idx=1)):
             return False, "the slot is looked up with key %s, not the id parameter" % o_str(ko), [], ent[0].loc
         r = cb.origin(0)
         if not mir.o_is_call(r, name="clone"):
